@@ -431,7 +431,29 @@ def _class_rank(name):
     return _CLASSES.index(c) if c in _CLASSES else 99
 
 
+def _own_arpack():
+    """ARPACK draws its start vector from an internal generator whose state moves from call to call: two calls of
+    nvecs then differ in the last digits, and the 'later result' comparison would see the environment, not the
+    library.  While this module runs, eigsh / eigs get a fixed generic start vector unless the caller passes one."""
+    import scipy.sparse.linalg as sla
+
+    if getattr(sla, "_c05_owned", False):
+        return
+
+    def wrap(orig):
+        def f(A, k=6, *args, **kw):
+            if not args and kw.get("v0") is None:
+                n = A.shape[0]
+                kw["v0"] = np.array([1.0 + 0.5 * np.sin(1.0 + 2.3 * i) for i in range(n)])
+            return orig(A, k, *args, **kw)
+        return f
+
+    sla.eigsh, sla.eigs = wrap(sla.eigsh), wrap(sla.eigs)
+    sla._c05_owned = True
+
+
 def run_case(case, ctx):
+    _own_arpack()
     if case["check"] == "completeness":
         return _run_completeness(case, ctx)
     op, var = case["op"], case["var"]
